@@ -4,7 +4,6 @@ import (
 	"fmt"
 	"hash/fnv"
 	"runtime"
-	"strings"
 	"sync"
 	"sync/atomic"
 	"testing"
@@ -406,12 +405,6 @@ func TestC04(t *testing.T) {
 
 	m.directed()
 
-	type built struct {
-		w     *bbrig.World
-		steps []bbrig.Step
-		cp    caseParams
-	}
-
 	// phase 1: single-threaded scripts (cases independent, run on 12 workers)
 	n1 := r.N(30, 150)
 	var sampleMu sync.Mutex
@@ -465,7 +458,4 @@ func TestC04(t *testing.T) {
 	if r.Counter("emitted_total") == 0 {
 		r.Inconclusive("the ballotbox emitted no voteproof at all")
 	}
-	var kinds []string
-	_ = kinds
-	_ = strings.Join
 }
